@@ -219,10 +219,12 @@ class RecClient:
         self.prefix = prefix
         self.default_headers = dict(default_headers or {})
         self.turns: list[dict[str, Any]] = []
+        self.on_request: Any = None  # optional callable() -> value stored as turn["mark"] (e.g. invocation-log length)
 
     def _do(self, verb: str, url: str, content: bytes | None, headers: dict[str, str] | None) -> _Resp:
         merged = {**self.default_headers, **(headers or {})}
         path = urlparse(url).path
+        mark = self.on_request() if self.on_request is not None else None
         r = httpdrv.call(self.app, verb, path, merged, content or b"")
         if r.exc is not None:
             raise r.exc
@@ -240,6 +242,7 @@ class RecClient:
                 "coding": (r.header("content-encoding") or r.header("x-vgi-content-encoding") or "identity").lower(),
                 "rpc_error": (r.header("x-vgi-rpc-error") or "").lower() == "true",
                 "req_len": len(content or b""),
+                "mark": mark,
             }
         )
         hd = {k.lower(): v for k, v in r.headers}
